@@ -185,6 +185,145 @@ theorem C04_oneUnsew2_cells (cfg : Cfg X) (m m' : Map X) (l : Nat) (u : Unit)
   have up2 := so.2 _ inr'
   omega
 
+/-! ## 2-sew at cell level (both darts have a successor) -/
+
+/-- the minimum of a union of two cells -/
+theorem cellId_of_union {m m1 : Map X} (hwf : WF 3 m) (hwf1 : WF 3 m1) (hn : m1.n = m.n)
+    {c p q : Nat} (hc0 : c ≠ 0) (hc : c < m.n) (hp0 : p ≠ 0) (hp : p < m.n) (hq0 : q ≠ 0) (hq : q < m.n)
+    (hcell : ∀ x, SameCell (g2 m1 .vertex) m.n c x ↔
+      (SameCell (g2 m .vertex) m.n p x ∨ SameCell (g2 m .vertex) m.n q x)) :
+    cellId m1 .vertex c = min (cellId m .vertex p) (cellId m .vertex q) := by
+  have sp := cellId_spec hwf (pol := .vertex) trivial hp0 hp
+  have sq := cellId_spec hwf (pol := .vertex) trivial hq0 hq
+  have hc' : c < m1.n := by rw [hn]; exact hc
+  have sc := cellId_spec hwf1 (pol := .vertex) (m := m1) trivial hc0 hc'
+  have mc : ∀ x, x ∈ orb m1 .vertex c ↔ SameCell (g2 m1 .vertex) m.n c x := by
+    intro x; have := mem_cell_iff hwf1 (m := m1) hc0 hc' x; rw [hn] at this; exact this
+  have hU := (hcell _).1 ((mc _).1 sc.1)
+  have lower : min (cellId m .vertex p) (cellId m .vertex q) ≤ cellId m1 .vertex c := by
+    rcases hU with a | a
+    · have := sp.2 _ ((mem_cell_iff hwf hp0 hp _).2 a); omega
+    · have := sq.2 _ ((mem_cell_iff hwf hq0 hq _).2 a); omega
+  have up1 := sc.2 _ ((mc _).2 ((hcell _).2 (Or.inl ((mem_cell_iff hwf hp0 hp _).1 sp.1))))
+  have up2 := sc.2 _ ((mc _).2 ((hcell _).2 (Or.inr ((mem_cell_iff hwf hq0 hq _).1 sq.1))))
+  omega
+
+/-- **C04, 2-sew at cell level** (both darts have a successor; the orientation test passed) -/
+theorem C04_twoSew2_cells (cfg : Cfg X) (m m' : Map X) (l r : Nat) (u : Unit)
+    (hwf : WF 3 m) (hl : C01.InUse m l) (hr : C01.InUse m r) (hlr : l ≠ r) (hfc : m.fc = 0)
+    (hbl : m.β 1 l ≠ 0) (hbr : m.β 1 r ≠ 0)
+    (h : run (twoSew2 cfg m.n l r) m = (.ok u, m')) :
+    WF 3 (link2 m l r) ∧ SameTopo (link2 m l r) m' ∧
+    -- the new vertex partition: cell(l) ∪ cell(β1 r), then cell(r) ∪ cell(β1 l); nothing else changes
+    (∃ R : Nat → Nat → Prop,
+      (∀ d e, R d e ↔ United (g2 m .vertex) m.n l (m.β 1 r) d e) ∧
+      (∀ d e, SameCell (g2 (link2 m l r) .vertex) m.n d e ↔ UnitedR R r (m.β 1 l) d e)) ∧
+    -- provided the two end points of the new edge are different vertices AFTER the call, the two
+    -- new identifiers are the minima of the respective pairs of old identifiers
+    (¬ SameCell (g2 (link2 m l r) .vertex) m.n l r →
+      cellId (link2 m l r) .vertex l = min (cellId m .vertex l) (cellId m .vertex (m.β 1 r)) ∧
+      cellId (link2 m l r) .vertex r = min (cellId m .vertex (m.β 1 l)) (cellId m .vertex r)) ∧
+    -- the data, in the order of the code (built-in vertices for both ends, user vertex storages
+    -- for both ends, edge storages), between the identifiers just described
+    (∃ ma mb mc md,
+      MergedIn cfg [0] (cellId (link2 m l r) .vertex l) (cellId m .vertex l) (cellId m .vertex (m.β 1 r))
+        (link2 m l r) ma ∧
+      MergedIn cfg [0] (cellId (link2 m l r) .vertex r) (cellId m .vertex (m.β 1 l)) (cellId m .vertex r) ma mb ∧
+      MergedIn cfg (storagesOf cfg 0) (cellId (link2 m l r) .vertex l) (cellId m .vertex l)
+        (cellId m .vertex (m.β 1 r)) mb mc ∧
+      MergedIn cfg (storagesOf cfg 0) (cellId (link2 m l r) .vertex r) (cellId m .vertex (m.β 1 l))
+        (cellId m .vertex r) mc md ∧
+      MergedIn cfg (eStores cfg) (min l r) l r md m') := by
+  obtain ⟨hl0, hln, hlu⟩ := hl
+  obtain ⟨hr0, hrn, hru⟩ := hr
+  have han : m.β 1 r < m.n := hwf.range 1 (by omega) r hrn
+  have hbn : m.β 1 l < m.n := hwf.range 1 (by omega) l hln
+  obtain ⟨lv, b1rv, b1lv, rv, m1, lvn, rvn, eid, ma, mb, mc, md, hlv, hb1rv, hb1lv, hrv, _, hlink,
+    hlvn, hrvn, heid, rA', rB', rC', rD', rE'⟩ := C04_twoSew2_both cfg m.n l r m m' u hfc hbl hbr h
+  obtain ⟨_, _, h2l, h2r, rfl⟩ := iLinkCore_ok hlink
+  have hwf1 : WF 3 (link2 m l r) := hwf.linkI (by omega) (by omega) hl0 hr0 hlr hln hrn hlu hru h2l h2r
+  have e1 : lv = cellId m .vertex l := run_ok_inj hlv (C03_vertexId2_min hwf hl0 hln).1
+  have e2 : b1rv = cellId m .vertex (m.β 1 r) := run_ok_inj hb1rv (C03_vertexId2_min hwf hbr han).1
+  have e3 : b1lv = cellId m .vertex (m.β 1 l) := run_ok_inj hb1lv (C03_vertexId2_min hwf hbl hbn).1
+  have e4 : rv = cellId m .vertex r := run_ok_inj hrv (C03_vertexId2_min hwf hr0 hrn).1
+  have e5 : lvn = cellId (link2 m l r) .vertex l :=
+    run_ok_inj hlvn (C03_vertexId2_min hwf1 (m := link2 m l r) hl0 hln).1
+  have e6 : rvn = cellId (link2 m l r) .vertex r :=
+    run_ok_inj hrvn (C03_vertexId2_min hwf1 (m := link2 m l r) hr0 hrn).1
+  -- the new edge id: β2 l = r in the linked map
+  have e7 : eid = min l r := by
+    have hrl : ¬ r = l := fun hh => hlr hh.symm
+    have hb2 : (link2 m l r).β 2 l = r := by rw [link2_β hwf hln hrn]; simp [hlr, hrl]
+    have hok : (link2 m l r).okβ 2 l = true := (hwf1.toSized.okβ 2 l).2 ⟨by omega, hln⟩
+    have heid' : run (edgeId2 (X := X) l) (link2 m l r) = (.ok eid, link2 m l r) := heid
+    unfold edgeId2 at heid'
+    simp only [Prog.bind_eq, bind, run_rB, hok, if_true, hb2, hr0, if_false, Prog.pure_eq, run_ret,
+      Prod.mk.injEq, Out.ok.injEq] at heid'
+    rw [← heid'.1]; exact Nat.min_comm _ _
+  subst e1 e2 e3 e4 e5 e6 e7
+  have htopo : SameTopo (link2 m l r) m' :=
+    (((rA'.topo.trans rB'.topo).trans rC'.topo).trans rD'.topo).trans rE'.topo
+  obtain ⟨R, hR, hcells⟩ := vertex_cells_link2 hwf hl0 hr0 hlr hln hrn h2l h2r
+  have hR' : ∀ d e, R d e ↔ United (g2 m .vertex) m.n l (m.β 1 r) d e := by
+    intro d e; rw [hR, if_neg hbr]
+  have hcells' : ∀ d e, SameCell (g2 (link2 m l r) .vertex) m.n d e ↔ UnitedR R r (m.β 1 l) d e := by
+    intro d e; rw [hcells, if_neg hbl]
+  refine ⟨hwf1, htopo, ⟨R, hR', hcells'⟩, ?_, ⟨ma, mb, mc, md, rA', rB', rC', rD', rE'⟩⟩
+  intro hsep
+  -- R is an equivalence-like relation: we only need reflexivity-type facts from `United`
+  have Rrefl : ∀ d, R d d := fun d => (hR' d d).2 (Or.inl (.refl d))
+  -- r and β1 l are in one new cell; l and β1 r are in one R-class
+  have hrb : SameCell (g2 (link2 m l r) .vertex) m.n r (m.β 1 l) :=
+    (hcells' _ _).2 (Or.inr (Or.inl ⟨Rrefl _, Rrefl _⟩))
+  have hla : R l (m.β 1 r) := (hR' _ _).2 (Or.inr (Or.inl ⟨.refl _, .refl _⟩))
+  -- consequences of the separation: l is R-related neither to r nor to β1 l
+  have nlr : ¬ R l r := fun hh => hsep ((hcells' _ _).2 (Or.inl hh))
+  have nlb : ¬ R l (m.β 1 l) := fun hh =>
+    hsep (.trans ((hcells' _ _).2 (Or.inl hh)) (.symm hrb))
+  have Rsymm : ∀ d e, R d e → R e d := by
+    intro d e hh
+    exact (hR' _ _).2 (United.symm ((hR' _ _).1 hh))
+  have Rtrans : ∀ d b e, R d b → R b e → R d e := by
+    intro d b e h1 h2
+    exact (hR' _ _).2 (United.trans ((hR' _ _).1 h1) ((hR' _ _).1 h2))
+  constructor
+  · -- the new cell of l is cell(l) ∪ cell(β1 r)
+    apply cellId_of_union hwf hwf1 rfl hl0 hln hl0 hln hbr han
+    intro x
+    rw [hcells']
+    constructor
+    · rintro (h1 | ⟨h1, _⟩ | ⟨h1, _⟩)
+      · rcases (hR' _ _).1 h1 with a | ⟨_, a2⟩ | ⟨a1, a2⟩
+        · exact Or.inl a
+        · exact Or.inr a2
+        · exact Or.inl a2
+      · exact absurd h1 nlr
+      · exact absurd h1 nlb
+    · rintro (h1 | h1)
+      · exact Or.inl ((hR' _ _).2 (Or.inl h1))
+      · exact Or.inl ((hR' _ _).2 (Or.inr (Or.inl ⟨.refl _, h1⟩)))
+  · -- the new cell of r is cell(β1 l) ∪ cell(r)
+    apply cellId_of_union hwf hwf1 rfl hr0 hrn hbl hbn hr0 hrn
+    intro x
+    rw [hcells']
+    -- R-classes of r and β1 l do not contain l or β1 r
+    have nrl : ¬ R r l := fun hh => nlr (Rsymm _ _ hh)
+    have nbl : ¬ R (m.β 1 l) l := fun hh => nlb (Rsymm _ _ hh)
+    have plain : ∀ c, ¬ R c l → ∀ y, R c y → SameCell (g2 m .vertex) m.n c y := by
+      intro c hc y hy
+      rcases (hR' _ _).1 hy with a | ⟨a1, _⟩ | ⟨a1, _⟩
+      · exact a
+      · exact absurd ((hR' _ _).2 (Or.inl a1)) hc
+      · exact absurd (Rtrans _ _ _ ((hR' _ _).2 (Or.inl a1)) (Rsymm _ _ hla)) hc
+    constructor
+    · rintro (h1 | ⟨_, h2⟩ | ⟨_, h2⟩)
+      · exact Or.inr (plain r nrl x h1)
+      · exact Or.inl (plain _ nbl x h2)
+      · exact Or.inr (plain r nrl x h2)
+    · rintro (h1 | h1)
+      · exact Or.inr (Or.inl ⟨Rrefl _, (hR' _ _).2 (Or.inl h1)⟩)
+      · exact Or.inl ((hR' _ _).2 (Or.inl h1))
+
 /-! non-vacuity: the two triangles of C01 glued along 2|4; dart 2 is 1-unsewn (its β2 image is 4,
     so the vertex {3, 5} splits into {3} and {5}) and sewn back (the two cells are united again) -/
 def glued : Map Val := (run (twoSew2 (stdCfg 3 7) 9 2 4) C01.exMap).2
@@ -197,5 +336,14 @@ example : cellId glued .vertex 3 = 3 ∧ cellId opened .vertex 4 = 4 ∧ cellId 
 example : WF 3 opened ∧ opened.fc = 0 ∧ opened.β 2 2 = 4 ∧ opened.β 1 2 = 0 ∧ opened.β 0 3 = 0 := by
   decide +kernel
 example : (run (oneSew2 (stdCfg 3 7) opened.n 2 3) opened).1 = .ok () := by decide +kernel
+
+/-- hypotheses of `C04_twoSew2_cells` on the two triangles of C01, sewing 2 with 4: both darts have
+    a successor, the call succeeds, the two end points stay different vertices (different ids ⇔
+    different cells, C03), and the new ids are the minima: {2,5} ↦ 2, {3,4} ↦ 3 -/
+example : C01.InUse C01.exMap 2 ∧ C01.InUse C01.exMap 4 ∧ C01.exMap.β 1 2 ≠ 0 ∧ C01.exMap.β 1 4 ≠ 0 ∧
+    (run (twoSew2 (stdCfg 3 7) C01.exMap.n 2 4) C01.exMap).1 = .ok () := by decide +kernel
+example : cellId (link2 C01.exMap 2 4) .vertex 2 = 2 ∧ cellId (link2 C01.exMap 2 4) .vertex 4 = 3 ∧
+    cellId C01.exMap .vertex 2 = 2 ∧ cellId C01.exMap .vertex 5 = 5 ∧
+    cellId C01.exMap .vertex 3 = 3 ∧ cellId C01.exMap .vertex 4 = 4 := by decide +kernel
 
 end HC.C04
